@@ -210,6 +210,8 @@ type FuncResult struct {
 	Paths       int
 	ReqSat      []*Obligation
 	Observe     []obsTerm
+	Trusted     []string // extern contracts, quiet functions and library models the proof of this function relies on
+	Requires    []string // preconditions of this function (assumed here; obligations of callers under contract)
 }
 
 func (fc *FnCtx) prepare() {
@@ -294,6 +296,13 @@ func (eng *Engine) verifyFunction(p *Pkg, key string, ct *Contract) (res *FuncRe
 	defer func() {
 		res.Obls = fc.obls
 		res.Warnings = fc.warnings
+		for t := range fc.trusted {
+			res.Trusted = append(res.Trusted, t)
+		}
+		sort.Strings(res.Trusted)
+		for _, rq := range ct.Requires {
+			res.Requires = append(res.Requires, rq.Text)
+		}
 		if r := recover(); r != nil {
 			switch e := r.(type) {
 			case unsupportedErr:
